@@ -4,8 +4,10 @@ for s in "$@"; do
   wt=/var/tmp/cs-$s
   git -C /repo worktree add -q --detach $wt HEAD || continue
   git -C $wt apply /verif/seeded/$s/patch.diff
-  cp /verif/seeded/$s/seeded_demo.rs $wt/rust/automerge/tests/seeded_demo.rs
-  CARGO_TARGET_DIR=$wt/rust/target /verif/tools/confirm_seed.sh $wt /verif/seeded/$s/confirm.txt
+  case $s in C34|C35) crate=hexane;; C33) crate=automerge-cli;; *) crate=automerge;; esac
+  mkdir -p $wt/rust/$crate/tests
+  cp /verif/seeded/$s/seeded_demo.rs $wt/rust/$crate/tests/seeded_demo.rs
+  CARGO_TARGET_DIR=$wt/rust/target /verif/tools/confirm_seed.sh $wt /verif/seeded/$s/confirm.txt $crate
   git -C /repo worktree remove --force $wt
   rm -rf $wt
 done
